@@ -73,6 +73,10 @@ def main():
     alarms = [r for r in harmless if r["status"] != "quiet"]
     os.makedirs(os.path.join(HERE, "selftest", "results"), exist_ok=True)
     if only_harmless:
+        rf = os.path.join(HERE, "selftest", "results", pid + ".json")
+        doc = json.load(open(rf)) if os.path.exists(rf) else dict(property=pid, breaking=[])
+        doc["harmless"] = [dict(patch=r["patch"], status=r["status"], failed=r.get("failed", [])[:4]) for r in harmless]
+        json.dump(doc, open(rf, "w"), indent=1)
         print(json.dumps(dict(property=pid, harmless=len(harmless), false_alarms=[r["patch"] for r in alarms])))
         return 1 if alarms else 0
     with open(os.path.join(HERE, "selftest", "results", pid + ".json"), "w") as f:
